@@ -17,6 +17,7 @@ from __future__ import annotations
 
 import copy
 import glob
+import hashlib
 import json
 import os
 import posixpath
@@ -56,8 +57,13 @@ def no_answer(r: Any) -> bool:
     return (not isinstance(r, dict)) or "__timeout__" in r or "__died__" in r or "__exc__" in r or r.get("error") in ("MemoryError", "NoAnswer")
 
 
+def case_arg(case: dict, run_id: str) -> dict:
+    """what the worker gets: the surface ASTs (printed by the worker with the same printer, harness/gen/surface.py)"""
+    return {"asts": case["files"], "dirs": case.get("dirs", []), "main": case["main"], "lookup": case.get("lookup", []), "run": run_id}
+
+
 def run_cases(pool: core.Pool, cases: list[dict], run_id: str, chunk: int = 20, timeout: float = 90.0) -> list[dict]:
-    args = [print_case(c, run_id) for c in cases]
+    args = [case_arg(c, run_id) for c in cases]
     chunks = [args[i:i + chunk] for i in range(0, len(args), chunk)]
     outs = pool.map("harness.impl_es:compile_layouts", chunks, timeout=timeout)
     res: list[dict] = []
@@ -69,6 +75,34 @@ def run_cases(pool: core.Pool, cases: list[dict], run_id: str, chunk: int = 20, 
             for s in singles:
                 res.append(s if isinstance(s, dict) else {"__exc__": "garbled"})
     return res
+
+
+def inline_case(case: dict) -> dict | None:
+    """the macro-free single-file program "every call replaced by the body" of a valid case (None when not applicable)"""
+    if case["expect"] not in ("ok", "dir_candidate"):
+        return None
+    if "dag" in case["tags"] and not case["name"].endswith((".0", ".1")):
+        return None     # plain DAG x order family: the first two definition orders of every shape get an inlined twin
+    doc = doc_closure(case)
+    if "error" in doc:
+        return None
+    main = case["main"]
+    vis = {n: m for n, (m, _f) in doc["visible"][main].items()}
+    try:
+        inl = G.inline_program(case["files"][main], vis)
+    except (ValueError, KeyError):
+        return None
+    return G.single_file_case(inl, case["name"] + ".inl", ["inlined"])
+
+
+def run_with_inline(pool: core.Pool, cases: list[dict], run_id: str, timeout: float = 90.0) -> tuple[list[dict], list[dict | None]]:
+    inl = [inline_case(c) for c in cases]
+    idx = [i for i, c in enumerate(inl) if c is not None]
+    res = run_cases(pool, cases + [inl[i] for i in idx], run_id, timeout=timeout)  # type: ignore
+    inl_res: list[dict | None] = [None] * len(cases)
+    for k, i in enumerate(idx):
+        inl_res[i] = res[len(cases) + k]
+    return res[:len(cases)], inl_res
 
 
 def cleanup_tmp(run_id: str) -> int:
@@ -197,9 +231,13 @@ def failing_entry(res: dict) -> dict | None:
 class Eval:
     """everything the check says about one case; `requests` go to the Lean driver, `finish` reads the replies"""
 
-    def __init__(self, case: dict, res: dict):
+    def __init__(self, case: dict, res: dict, inl_res: dict | None = None):
         self.case = case
         self.res = res
+        self.inl_res = inl_res          # compile result of the textually inlined, macro-free program (oracle i-b)
+        self.sem_bad: list[dict] = []
+        self.mm_bad: list[dict] = []
+        self.mm_done = False
         self.violations: list[tuple[str, str]] = []   # (kind, what)
         self.ties: list[tuple[str, dict]] = []
         self.requests: list[dict] = []
@@ -308,15 +346,13 @@ class Eval:
             else:
                 self.v("macro_path_attribution", f"macro {name}: included paths {got}, expected {(want_abs, want_rel)}")
         # source-map macro entries name existing macros and the files they come from (relative to the main file)
-        sm = res.get("source_map") or {}
         rels = {posixpath.relpath(f, posixpath.dirname(main)) for (_m, f) in doc["visible"][main].values() if f != main} | {None}
-        for off, ent in ((sm.get("macros") or {}).get("map") or {}).items():
-            ent_file, ent_name = ent[0], ent[1]
+        for ent_file, ent_name, cnt in res.get("sm_macros") or []:
             if ent_name not in doc["visible"][main]:
-                self.v("source_map_unknown_macro", f"source map macro entry at {off} names {ent_name}")
+                self.v("source_map_unknown_macro", f"a source map macro entry names {ent_name}")
             elif ent_file not in rels:
-                self.v("source_map_unknown_file", f"source map macro entry at {off} names file {ent_file}")
-            self.stats["source_map_macro_entries"] += 1
+                self.v("source_map_unknown_file", f"a source map macro entry of {ent_name} names file {ent_file}")
+            self.stats["source_map_macro_entries"] += cnt
 
     # -- requests --------------------------------------------------------------------------------------------------------
     def build_requests(self) -> None:
@@ -326,12 +362,17 @@ class Eval:
         if self.compiled and "error" not in doc and case["expect"] in ("ok", "dir_candidate"):
             self.requests += escommon.validate_requests([(core_program(case, doc), res["ops"])])
             self.tags.append(("beh",))
+            if isinstance(self.inl_res, dict) and "ops" in self.inl_res:
+                self.requests.append({"op": "beh.validate_mm", "a": res["ops"], "b": self.inl_res["ops"], "n": len(res["ops"])})
+                self.tags.append(("mm_inline",))
+            elif self.inl_res is not None:
+                self.stats["inlined_program_not_compiled:" + str(self.inl_res.get("error") if isinstance(self.inl_res, dict) else "no_answer")] += 1
         for e in res.get("log", []):
             f = rel_of(e["file"])
             ast = case["files"].get(f)
             if ast is None:
                 continue
-            if "imports" in e:
+            if e.get("imports"):   # nothing to resolve otherwise
                 self.requests.append({"op": "macro.resolve", "exists": fake(res["tree"]) + ["/"], "cwd": res.get("cwd", "/"),
                                       "dir": fake(e["dir"]), "lookups": fake(e["lookup"]), "imports": fake(e["imports"])})
                 self.tags.append(("resolve", e))
@@ -351,10 +392,15 @@ class Eval:
                 for vd in escommon.routine_verdicts(rep):
                     self.stats["verdict:" + vd["verdict"]] += 1
                     if vd["verdict"] in escommon.BAD_VERDICTS:
-                        self.v(behaviour_kind(self.case), f"{self.case['name']} routine {vd['r']}: {vd['verdict']} {vd.get('why', '')} after test outcomes {vd.get('path')}")
-                        self.bad_verdict = vd
+                        self.sem_bad.append(vd)
                     elif vd["verdict"] in ("budget", "driver-error"):
                         self.stats["validator_" + vd["verdict"]] += 1
+            elif tag[0] == "mm_inline":
+                self.mm_done = True
+                for vd in escommon.routine_verdicts(rep):
+                    self.stats["inline_mm:" + vd["verdict"]] += 1
+                    if vd["verdict"] in escommon.BAD_VERDICTS:
+                        self.mm_bad.append(vd)
             elif tag[0] == "resolve":
                 e = tag[1]
                 if "resolved" in e:
@@ -398,6 +444,25 @@ class Eval:
                     if e["order_error"][0] != "SsbCompilerError" or rep.get("cycle") is None or (named not in ("None", rep.get("cycle")) and not named.startswith("Dependency")):
                         self.ties.append(("correspondence C05/order: cycle check differs from the Lean model", {"file": f, "impl": e["order_error"], "model": rep}))
                     self.stats["cycle_errors_compared"] += 1
+        _classify_behaviour(self)
+
+
+def _classify_behaviour(ev: "Eval") -> None:
+    """(i-a) real ops vs the Lean semantics of the program with macros, (i-b) real ops vs the real ops of the textually
+    inlined program.  A difference in (i-b) is a defect of macro expansion; a difference in (i-a) only, with (i-b) equal, is a
+    defect of the compiler that shows without macros as well (C01's business, still a failing input of this property)."""
+    name = ev.case["name"]
+    for vd in ev.mm_bad:
+        ev.v(behaviour_kind(ev.case), f"{name} routine {vd['r']}: compile(p) and compile(p with every call replaced by the body) behave differently: "
+                                      f"{vd['verdict']} {vd.get('why', '')} after test outcomes {vd.get('path')}")
+    if ev.mm_bad:
+        return
+    for vd in ev.sem_bad:
+        what = f"{name} routine {vd['r']}: {vd['verdict']} {vd.get('why', '')} after test outcomes {vd.get('path')}"
+        if ev.mm_done:
+            ev.v("base_compiler_differs_also_without_macros", what + " (the macro-free inlined program compiles to equivalent code: not a defect of macro expansion)")
+        else:
+            ev.v(behaviour_kind(ev.case), what)
 
 
 def behaviour_kind(case: dict) -> str:
@@ -522,8 +587,8 @@ def shrink_case(case: dict, still_fails: Callable[[dict], bool], budget: int = 1
 
 
 def evaluate_single(case: dict, pool: core.Pool, drv: core.Driver | None, run_id: str) -> Eval:
-    res = run_cases(pool, [case], run_id, timeout=40.0)[0]
-    ev = Eval(case, res)
+    rs, irs = run_with_inline(pool, [case], run_id, timeout=40.0)
+    ev = Eval(case, rs[0], irs[0])
     if drv is not None:
         ev.build_requests()
         ev.finish(drv.batch(ev.requests) if ev.requests else [])
@@ -543,14 +608,16 @@ def run(run: core.Run) -> int:
     fixed = G.fixed_cases() + G.error_cases(rng)
     groups = G.dag_groups(4, rng) if quick else G.dag_groups(5, rng)
     if not quick:
-        # 6 and 7 macros: sampled shapes are not enumerated (too many); random DAGs with sampled orders instead
+        # 6-9 macros: the shapes are not enumerated (too many); random DAGs with 12 sampled orders each
         for n in (6, 7, 8, 9):
             for k in range(6):
                 calls = G.random_dag(rng, n, rng.choice([0.2, 0.4, 0.6]))
                 perms = [list(range(n))] + [rng.sample(range(n), n) for _ in range(11)]
                 groups.append({"shape": calls, "info": G.shape_info(calls), "n": n,
                                "cases": [G.single_file_case(G.plain_dag_program(calls, p), f"dag{n}.r{k}.{i}", ["dag"]) for i, p in enumerate(perms)]})
-    n_rich, n_layout, n_invalid, n_posnest = (260, 220, 90, 4) if quick else (5000, 4000, 1200, 16)
+    for g in groups:
+        g["dag"] = True
+    n_rich, n_layout, n_invalid, n_posnest = (220, 200, 84, 4) if quick else (4000, 3000, 900, 12)
     rich_groups = []
     for i in range(n_rich):
         c = G.rich_case(rng, run.tier, gstats, idx=i)
@@ -559,60 +626,47 @@ def run(run: core.Run) -> int:
     layouts = [G.layout_case(rng, i, gstats) for i in range(n_layout)]
     kinds = ["missing", "cycle", "routines_in_import", "dot_component", "lookup_empty", "dir_candidate"]
     invalid = [G.layout_case(rng, n_layout + i, gstats, kinds[i % len(kinds)]) for i in range(n_invalid)]
-    posnest = [G.posmark_hang_witness()] + [G.rich_case(rng, run.tier, gstats, allow_pos_nested=True, idx=10**6 + i) for i in range(n_posnest)]
-    posnest = [c for c in posnest if G.predicts_posmark_hang(c["files"])]
+    # Position literals + nested macros of one file (shape of known finding macro_posmark_nested_hang): few cases, own small pool
+    posnest = [G.posmark_hang_witness()]
+    for i in range(40 * n_posnest):
+        if len(posnest) > n_posnest:
+            break
+        c = G.rich_case(rng, run.tier, {}, allow_pos_nested=True, idx=10**6 + i)
+        if G.predicts_posmark_hang(c["files"]):
+            posnest.append(c)
 
-    all_groups = [{"cases": [c], "n": 0} for c in fixed] + groups + rich_groups + [{"cases": [c], "n": 0} for c in layouts + invalid]
-    cases = [c for g in all_groups for c in g["cases"]]
-    core.log(f"[C05] {len(cases)} cases ({sum(len(g['cases']) for g in groups)} DAG x order, {sum(len(g['cases']) for g in rich_groups)} rich, "
+    all_groups = [{"cases": [c], "n": 0} for c in fixed] + rich_groups + [{"cases": [c], "n": 0} for c in layouts + invalid] + groups
+    n_cases = sum(len(g["cases"]) for g in all_groups)
+    core.log(f"[C05] {n_cases} cases ({sum(len(g['cases']) for g in groups)} DAG x order, {sum(len(g['cases']) for g in rich_groups)} rich, "
              f"{len(layouts)} layouts, {len(invalid)} invalid layouts, {len(posnest)} posmark-nested) jobs={jobs}")
     pool = core.Pool(jobs)
     small_pool = core.Pool(min(jobs, 4), mem_mb=700)
-    evs: list[Eval] = []
-    shapes_failing: Counter = Counter()
     drv = core.Driver() if prep["driver_ok"] else None
-    n_viol_checked = 0
-    try:
-        results = run_cases(pool, cases, run_id)
-        pos_results = run_cases(small_pool, posnest, run_id, chunk=1, timeout=12.0)
-        small_pool.close()
-        evs = [Eval(c, r) for c, r in zip(cases + posnest, results + pos_results)]
-        if drv is not None:
-            reqs: list[dict] = []
-            for ev in evs:
-                ev.build_requests()
-                reqs += ev.requests
-            # (ii) order oracle: all permutations compile (checked per case above) and are pairwise behaviourally equal
-            mm: list[tuple[dict, Eval, Eval]] = []
-            k = 0
-            for g in all_groups:
-                gevs = evs[k:k + len(g["cases"])]
-                k += len(g["cases"])
-                ok = [e for e in gevs if e.compiled]
-                for e in ok[1:]:
-                    mm.append(({"op": "beh.validate_mm", "a": ok[0].res["ops"], "b": e.res["ops"], "n": len(ok[0].res["ops"])}, ok[0], e))
-            reps = drv.batch_parallel(reqs + [m[0] for m in mm], jobs)
-            pos = 0
-            for ev in evs:
-                ev.finish(reps[pos:pos + len(ev.requests)])
-                pos += len(ev.requests)
-            for (rq, e0, e1), rep in zip(mm, reps[pos:]):
-                for vd in escommon.routine_verdicts(rep):
-                    e1.stats["mm:" + vd["verdict"]] += 1
-                    if vd["verdict"] in escommon.BAD_VERDICTS:
-                        e1.v("definition_order_changes_behaviour", f"{e0.case['name']} and {e1.case['name']} differ only in the definition order of the macros; routine {vd['r']}: {vd['verdict']} {vd.get('why', '')}")
-        # ---- report ---------------------------------------------------------------------------------------------------------
-        known_kinds = {k["kind"] for k in run.known}
-        stats: Counter = Counter()
-        n_ties = 0
+    known_kinds = {k["kind"] for k in run.known}
+    stats: Counter = Counter()
+    shapes_failing: Counter = Counter()
+    tally = {"viol": 0, "ties": 0, "compiled": 0, "evals": 0}
+    nontrivial: set = set()
+    samples: list[dict] = []
+
+    def report(evs: list[Eval]) -> None:
         for ev in evs:
+            tally["evals"] += 1
             stats.update(ev.stats)
+            if ev.compiled:
+                tally["compiled"] += 1
+                c = ev.case
+                if len(c["files"]) > 1 or any(G.calls_in(m["body"]) for a in c["files"].values() for m in a.get("macros", [])):
+                    nontrivial.add(c["name"] if "dag" in c["tags"] else hashlib.sha256(json.dumps(c["files"], sort_keys=True).encode()).hexdigest())
+                want = "rich" if not samples else ("layout" if len(samples) == 1 else None)
+                if want and want in c["tags"] and (want == "rich" or len(c["files"]) > 2):
+                    samples.append({"name": c["name"], "texts": print_case(c, "sample")["files"], "lookup": c.get("lookup")})
             for what, detail in ev.ties:
-                n_ties += 1
-                if n_ties <= 3:
+                tally["ties"] += 1
+                if tally["ties"] <= 3:
                     run.broken_tie(what, detail)
             for kind, what in ev.violations:
-                n_viol_checked += 1
+                tally["viol"] += 1
                 stats["violation:" + kind] += 1
                 replay = {"case": ev.case, "impl": {k: v for k, v in ev.res.items() if k in ("error", "msg", "site", "ops", "macro_order")} if isinstance(ev.res, dict) else ev.res}
                 if kind in known_kinds or sum(1 for v in run.violations if not v.get("nofail")) >= 3 or kind.startswith("compile_no_answer"):
@@ -630,11 +684,45 @@ def run(run: core.Run) -> int:
                 run.violation(sv[0][0], sv[0][1], {"case": small, "texts": print_case(small, "replay")["files"],
                                                    "impl": {k: v for k, v in se.res.items() if k in ("error", "msg", "site", "ops", "macro_order")},
                                                    "original_case": ev.case["name"]})
+
+    def process(batch: list[dict]) -> None:
+        """compile, evaluate and report the cases of some groups; nothing of a batch is kept afterwards"""
+        cases = [c for g in batch for c in g["cases"]]
+        results, inl_results = run_with_inline(pool, cases, run_id)
+        evs = [Eval(c, r, ir) for c, r, ir in zip(cases, results, inl_results)]
+        if drv is not None:
+            reqs: list[dict] = []
+            for ev in evs:
+                ev.build_requests()
+                reqs += ev.requests
+            # (ii) order oracle: all permutations compile (checked per case) and are pairwise behaviourally equal
+            mm: list[tuple[dict, Eval, Eval]] = []
+            k = 0
+            for g in batch:
+                gevs = evs[k:k + len(g["cases"])]
+                k += len(g["cases"])
+                ok = [e for e in gevs if e.compiled]
+                for e in ok[1:]:
+                    mm.append(({"op": "beh.validate_mm", "a": ok[0].res["ops"], "b": e.res["ops"], "n": len(ok[0].res["ops"])}, ok[0], e))
+            reps = drv.batch_parallel(reqs + [m[0] for m in mm], jobs)
+            pos = 0
+            for ev in evs:
+                ev.finish(reps[pos:pos + len(ev.requests)])
+                pos += len(ev.requests)
+                ev.requests = []
+            for (_rq, e0, e1), rep in zip(mm, reps[pos:]):
+                for vd in escommon.routine_verdicts(rep):
+                    e1.stats["mm:" + vd["verdict"]] += 1
+                    if vd["verdict"] in escommon.BAD_VERDICTS:
+                        e1.v("definition_order_changes_behaviour", f"{e0.case['name']} and {e1.case['name']} differ only in the definition order of the macros; routine {vd['r']}: {vd['verdict']} {vd.get('why', '')}")
+        report(evs)
         # which DAG shapes have an order that does not compile
-        k = len(fixed)
-        for g in groups:
+        k = 0
+        for g in batch:
             gevs = evs[k:k + len(g["cases"])]
             k += len(g["cases"])
+            if not g.get("dag"):
+                continue
             bad = sum(1 for e in gevs if any(kd == "macro_order_not_topological" for kd, _ in e.violations))
             if bad:
                 shapes_failing[f"n={g['n']}"] += 1
@@ -646,6 +734,26 @@ def run(run: core.Run) -> int:
             stats[f"dag_depth_{g['info']['depth']}"] += 1
             if bad and not g["info"]["unequal_paths"]:
                 stats["orders_fail_although_all_call_chains_have_equal_length"] += 1
+
+    try:
+        pos_results = run_cases(small_pool, posnest, run_id, chunk=1, timeout=12.0)
+        small_pool.close()
+        pevs = [Eval(c, r, None) for c, r in zip(posnest, pos_results)]
+        if drv is not None:
+            for ev in pevs:
+                ev.build_requests()
+                ev.finish(drv.batch(ev.requests) if ev.requests else [])
+        report(pevs)
+        batch: list[dict] = []
+        size = 0
+        for g in all_groups:
+            batch.append(g)
+            size += len(g["cases"])
+            if size >= 2500:
+                process(batch)
+                batch, size = [], 0
+        if batch:
+            process(batch)
     finally:
         pool.close()
         small_pool.close()
@@ -656,7 +764,7 @@ def run(run: core.Run) -> int:
     glue_bad = 0
     try:
         from .. import astdump
-        for g in rich_groups[:150]:
+        for g in rich_groups[:120]:
             c = g["cases"][0]
             ast = c["files"][c["main"]]
             text = surface.print_program(ast)[0]
@@ -675,34 +783,32 @@ def run(run: core.Run) -> int:
     if not prep["proofs_ok"] or not aud["ok"] or not prep["driver_ok"]:
         run.broken_tie("Lean obligations of C05 do not check (build/audit)", {"theorems": THEOREMS, "log": prep["log"][-3000:], "audit": {k: v for k, v in aud.items() if k != "theorems"}})
     if not quick and prep["proofs_ok"]:
-        ok, out = core.leanchecker(MODULES + ["ESV.Macro.Order", "ESV.Macro.OrderLemmas", "ESV.Macro.Import"])
+        ok, out = core.leanchecker(MODULES + ["ESV.Macro.Order", "ESV.Macro.OrderLemmas", "ESV.Macro.OrderThms", "ESV.Macro.Import"])
         stats["leanchecker_ok"] = int(ok)
         if not ok:
             run.broken_tie("leanchecker rejects the C05 modules", {"log": out})
-    compiled = [e for e in evs if e.compiled]
-    sample = [{"name": e.case["name"], "texts": print_case(e.case, "sample")["files"], "lookup": e.case.get("lookup")} for e in
-              ([e for e in compiled if "rich" in e.case["tags"]][:1] + [e for e in compiled if "layout" in e.case["tags"] and len(e.case["files"]) > 2][:1])]
     cov = {
-        "programs": len(compiled), "disagreements_checked": n_viol_checked,
-        "samples": sample or [{"name": c["name"]} for c in cases[:1]],
-        "evaluations": len(evs), "distinct_nontrivial": core.distinct(print_case(e.case, "d")["files"] for e in compiled
-                                                                        if any(G.calls_in(m["body"]) for a in e.case["files"].values() for m in a.get("macros", [])) or len(e.case["files"]) > 1),
+        "programs": tally["compiled"], "disagreements_checked": tally["viol"],
+        "samples": samples or [{"name": fixed[0]["name"], "texts": print_case(fixed[0], "sample")["files"]}],
+        "evaluations": tally["evals"], "distinct_nontrivial": len(nontrivial),
         "rule": "three families + fixed cases: (1) every isomorphism class of acyclic call graphs with <= 4 (thorough: <= 5, plus random graphs with 6-9) macros x every "
                 "definition order (thorough >5: 12 sampled orders) x reversed call order, plain bodies; (2) random DAGs with ProgGen bodies (labels with the same names in every macro and "
                 "the routine, return nested in if/loops, loops, switches), argument kinds int/const/game variable/string/language string/position mark/decimal/own parameter, "
                 "shadowing parameter names, too many arguments, calls in blocks, repeated calls, + sampled other definition orders; (3) macros spread over 2-5 files in temporary "
                 "directories: relative ./ ../, absolute, lookup-path imports with 1-3 lookup paths, the same file name in several lookup directories, nested and diamond imports, "
                 "relative lookup paths; invalid layouts (missing file, import cycle, routines in an imported file, ./.. components, empty lookup list, directory as candidate); "
-                "cyclic macro sets and too-few-argument calls. non-trivial = compiled and has a macro calling a macro or more than one file",
+                "cyclic macro sets and too-few-argument calls. Every valid case outside family 1 (family 1: two orders per shape) is also compiled in textually inlined form. "
+                "non-trivial = compiled and has a macro calling a macro or more than one file; distinct by AST (family 1: by shape/call order/definition order)",
         "obligations": aud["obligations"], "discharged": aud["discharged"] if prep["proofs_ok"] else 0,
         "checker_cmd": "lake build ESV.Props.C05; esvdrive beh.validate / beh.validate_mm (search + verified check), macro.order, macro.resolve",
         "trusted_base": ["Lean 4.33 kernel + propext/Classical.choice/Quot.sound", "Lean compiler for executing the validator and the models in the driver",
                          "harness lowering table harness/gen/surface.py and printer (cross-checked against the repo's parser on a sample)",
+                         "harness textual inliner (harness/gen/macros.py:Inliner) for the metamorphic oracle",
                          "harness reading of the import rules of docs/language_spec.rst (doc_resolve)", "igraph is modelled as used (vertex/edge creation order, bfsiter), compared on every run"],
         "theorems": THEOREMS, "axioms": aud.get("theorems", {}), "tables": prep.get("tables"),
         "outcomes": {k: v for k, v in sorted(stats.items())}, "generator": gstats,
         "dag_shapes": {"groups": len(groups), "shapes_with_an_order_that_does_not_compile": dict(shapes_failing)},
-        "glue_mismatches": glue_bad, "correspondence_mismatches": n_ties,
+        "glue_mismatches": glue_bad, "correspondence_mismatches": tally["ties"],
     }
     return run.finish("translation_validation", cov, [
         "the reference 'program with every call replaced by the body' is Stmt.macroCall of lean/ESV/Src/Sem.lean: parameters are substituted after lowering "
